@@ -572,8 +572,8 @@ def make_xy_grid(n, xrang, yrang):
 
     x = np.outer(x, ones)
     y = np.outer(ones, y)
-    x = x.flatten(1)
-    y = y.flatten(1)
+    x = x.flatten("F")
+    y = y.flatten("F")
 
     return x, y
 
